@@ -454,8 +454,8 @@ func main() {
 	b.WriteString("Definition fetchers : list (string * string * list string) := [" + strings.Join(fetchers, "; ") + "].\n")
 	b.WriteString("(* program, fetcher method it hands to the status reconcilers *)\n")
 	b.WriteString("Definition fetchers_wired : list (string * string) := " + pairList(wiredFetchers(repo)) + ".\n")
-	b.WriteString("(* control skeleton of the announcer's methods: (a return outside every loop?, per loop in source\n   order (nesting depth, contains return, contains break of the loop, contains continue of the loop)) *)\n")
-	b.WriteString("Definition skeletons : list (string * (bool * list (nat * bool * bool * bool))) := [\n  " + strings.Join(skeletons, ";\n  ") + "\n].\n")
+	b.WriteString("(* control skeleton of the announcer's methods: (a return outside every loop?, per loop in source\n   order (nesting depth, contains return, contains break of the loop, contains continue of the loop, names called in its body)) *)\n")
+	b.WriteString("Definition skeletons : list (string * (bool * list (nat * bool * bool * bool * list string))) := [\n  " + strings.Join(skeletons, ";\n  ") + "\n].\n")
 	b.WriteString("(* function, guarded field it hands out by reference *)\n")
 	b.WriteString("Definition escapes : list (string * string) := " + pairList(escapes) + ".\n")
 	if err := os.MkdirAll(filepath.Dir(out), 0o755); err != nil {
@@ -1674,6 +1674,7 @@ func skeletonOf(fd *ast.FuncDecl) string {
 	type loop struct {
 		depth          int
 		ret, brk, cont bool
+		calls          map[string]bool // names called in the body (nested loops included), not in the range / condition
 	}
 	var loops []*loop
 	topReturn := false
@@ -1687,7 +1688,7 @@ func skeletonOf(fd *ast.FuncDecl) string {
 			case *ast.FuncLit:
 				return false
 			case *ast.ForStmt, *ast.RangeStmt:
-				l := &loop{depth: len(stack) + 1}
+				l := &loop{depth: len(stack) + 1, calls: map[string]bool{}}
 				loops = append(loops, l)
 				var body *ast.BlockStmt
 				if f, ok := t.(*ast.ForStmt); ok {
@@ -1709,6 +1710,19 @@ func skeletonOf(fd *ast.FuncDecl) string {
 				}
 				walk(body, stack, append(append([]bool{}, breakable...), false))
 				return false
+			case *ast.CallExpr:
+				name := ""
+				switch f := t.Fun.(type) {
+				case *ast.Ident:
+					name = f.Name
+				case *ast.SelectorExpr:
+					name = f.Sel.Name
+				}
+				if name != "" {
+					for _, l := range stack {
+						l.calls[name] = true
+					}
+				}
 			case *ast.ReturnStmt:
 				if len(stack) == 0 {
 					topReturn = true
@@ -1737,7 +1751,12 @@ func skeletonOf(fd *ast.FuncDecl) string {
 	walk(fd.Body, nil, nil)
 	var items []string
 	for _, l := range loops {
-		items = append(items, fmt.Sprintf("(%d, %v, %v, %v)", l.depth, l.ret, l.brk, l.cont))
+		var cs []string
+		for c := range l.calls {
+			cs = append(cs, c)
+		}
+		sort.Strings(cs)
+		items = append(items, fmt.Sprintf("(%d, %v, %v, %v, %s)", l.depth, l.ret, l.brk, l.cont, strList(cs)))
 	}
 	return fmt.Sprintf("(%v, [%s])", topReturn, strings.Join(items, "; "))
 }
